@@ -20,7 +20,7 @@ func checkC11(c *Ctx) {
 	c.Trusted = []string{"go/ssa", "E-abs incl. float monomial normal form", "math.Round treated as an opaque wrapper"}
 	c.Rule("C11.1", "formulas as normal forms: Duration = Round(6e10 * ticks / (bpm * resolution)) ns; Ticks = Round(ns * resolution * bpm / 6e10); the two monomials are mutual inverses; a zero resolution means 960", 3)
 	c.Rule("C11.2", "default tempo: with no tempo event the tempo lookup and the time query use 120 BPM", 2)
-	c.Rule("C11.3", "segment rule: cumulative pass: time(k) = time(prev) + D(tempo in force before tick(k), tick(k) - tick(prev)); time query: time(prev) + D(prev.bpm, x - prev.tick), prev = last change before x", 3)
+	c.Rule("C11.3", "segment rule: cumulative pass: time(k) = time(prev) + D(tempo in force before tick(k), tick(k) - tick(prev)); time query: time(prev) + D(prev.bpm, x - prev.tick), prev = last change before x; repeated ticks", 4)
 	c.Rule("C11.4", "per-event times: the iterator hands out TimeAt(absolute tick) with the absolute tick a running sum of deltas, reset per track", 1)
 	c.Rule("C11.5", "tempo collection: while reading, each tempo event is recorded with the running absolute tick of its track (reset at end-of-track) and the decoded tempo", 2)
 
@@ -222,6 +222,59 @@ func checkC11(c *Ctx) {
 			}
 		}
 		c.Check(ok && n > 0, "C11.3", "cumulative pass over tempo events", p.Pos(cum.Pos()), "two symbolic tempo changes: each segment is integrated with the tempo in force before the event, from the previous event's time", why)
+	}
+	// repeated ticks: two tempo events at the same tick, then a later one — the segment after the shared tick runs
+	// with the LAST tempo set at that tick
+	if cum != nil {
+		ex := NewExec(p)
+		var log []durCall
+		mkHook(ex, &log)
+		st := ex.NewState()
+		sp := ex.newZeroObject(st, smfT)
+		q := mkSym(ex.syms.Get("q", 16, false))
+		st.refineSym(q.T.Syms[0], 1, 32767)
+		ex.setField(st, sp, "TimeFormat", &IfaceV{Dyn: mtT, V: q})
+		a := mkSym(ex.syms.Get("a", 64, true))
+		st.refineSym(a.T.Syms[0], 1, 1<<30)
+		cc := mkSym(ex.syms.Get("c", 64, true))
+		st.refineSym(cc.T.Syms[0], 1, 1<<30)
+		var ptrs []Val
+		var tcs []*PtrV
+		for i := 0; i < 3; i++ {
+			tp := ex.newZeroObject(st, tcT)
+			tick := a
+			if i == 2 {
+				tick = st.Arith(token.ADD, a, cc, "")
+			}
+			ex.setField(st, tp, "AbsTicks", tick)
+			ex.setField(st, tp, "BPM", &FloatV{Expr: fmt.Sprintf("b%d", i), Mono: monoOfAtom(fmt.Sprintf("b%d", i))})
+			ptrs = append(ptrs, tp)
+			tcs = append(tcs, tp)
+		}
+		id := ex.newObj(st, &ArrayV{Elem: types.NewPointer(tcT), Segs: []Seg{{Elems: ptrs}}}, nil)
+		three := mkConst(3, 64, true)
+		ex.setField(st, sp, "tempoChanges", &SliceV{Obj: id, Off: mkConst(0, 64, true), Len: three, Cap: three})
+		ok := true
+		why := ""
+		n := 0
+		for _, o := range ex.Call(st, cum, []Val{sp}, nil) {
+			n++
+			if o.Panic || len(problemEvents(o.St.Events)) > 0 {
+				ok = false
+				why = o.Msg + fmtEvents(problemEvents(o.St.Events))
+				continue
+			}
+			w0 := o.St.Arith(token.QUO, mkSym(ex.syms.Get("D(120,a)", 64, true)), mkConst(1000, 64, true), "")
+			w2 := o.St.Arith(token.ADD, w0, o.St.Arith(token.QUO, mkSym(ex.syms.Get("D(b1,c)", 64, true)), mkConst(1000, 64, true), ""), "")
+			for i, w := range []*IntV{w0, w0, w2} {
+				t, _ := ex.getField(o.St, tcs[i], "AbsTimeMicroSec")
+				if ti, _ := t.(*IntV); ti == nil || !o.St.sameInt(ti, w) {
+					ok = false
+					why = fmt.Sprintf("tempo events at ticks (a, a, a+c): event %d gets time %s, expected %s — after two tempo events on one tick the following segment runs with the last of them [Duration calls %v]", i, valString(t), w, log)
+				}
+			}
+		}
+		c.Check(ok && n > 0, "C11.3", "cumulative pass with repeated ticks", p.Pos(cum.Pos()), "events (a,b0) (a,b1) (a+c,b2): both events at a get the same time; the third is integrated with b1", why)
 	}
 	{
 		ex := NewExec(p)
@@ -437,4 +490,66 @@ func checkC11(c *Ctx) {
 			c.Check(okDecode, "C11.5", "tempo decoded into the record", p.Pos(coll.Pos()), "GetMetaTempo writes the record's BPM", "the decoded tempo is not stored in the record")
 		}
 	}
+}
+
+// ticksFormulaRule: duration -> tick conversion equals Round(ns * resolution * bpm / 6e10) and raises no integer wrap.
+func ticksFormulaRule(c *Ctx, rule string) {
+	p := c.P
+	mtT := p.namedType("smf", "MetricTicks")
+	if mtT == nil {
+		c.Unk(rule, "smf.MetricTicks", "-", "not found")
+		return
+	}
+	tks := p.MethodOf(mtT, "Ticks")
+	if tks == nil {
+		c.Unk(rule, "MetricTicks.Ticks", "-", "not found")
+		return
+	}
+	c.Fn(FuncName(tks))
+	ex := NewExec(p)
+	st := ex.NewState()
+	q := mkSym(ex.syms.Get("q", 16, false))
+	st.refineSym(q.T.Syms[0], 1, 65535)
+	d := mkSym(ex.syms.Get("d", 64, true))
+	st.refineSym(d.T.Syms[0], 0, 1<<50)
+	want := monoWant(1/6e10, map[string]int{"d": 1, "bpm": 1, "q": 1})
+	ok := true
+	why := ""
+	n := 0
+	for _, o := range ex.Call(st, tks, []Val{q, &FloatV{Expr: "bpm", Mono: monoOfAtom("bpm")}, d}, nil) {
+		n++
+		if o.Panic {
+			ok = false
+			why = o.Msg
+			continue
+		}
+		for _, e := range o.St.Events {
+			if e.Kind == "wrap" {
+				ok = false
+				why = "integer wrap-around inside the conversion: " + e.Msg + " (a long pause between two messages yields a far too small delta)"
+			}
+		}
+		iv, _ := o.Ret[0].(*IntV)
+		var fv *FloatV
+		if iv != nil {
+			if sy, single := o.St.TermOf(iv).SingleSym(); single {
+				fv = ex.MonoOf[sy]
+			}
+		}
+		if fv == nil || fv.Rounded != "Round" || !monoEq(fv.Mono, want) {
+			ok = false
+			got := "?"
+			if fv != nil {
+				got = fv.Rounded + "(" + fv.Mono.String() + ")"
+			}
+			if why == "" {
+				why = "Ticks computes " + got + ", the conversion is Round(" + want.String() + ") — a narrowed or truncated duration (e.g. whole micro/milliseconds, 32-bit product) changes the normal form"
+			}
+		}
+	}
+	if ex.noteWrapConv > 0 && ok {
+		ok = false
+		why = "the duration or an intermediate product is narrowed to a smaller integer type before the floating point conversion"
+	}
+	c.Check(ok && n > 0, rule, "duration -> tick conversion formula", p.Pos(tks.Pos()), "Round(ns * resolution * bpm / 6e10), no integer narrowing or wrap", why)
 }
